@@ -137,7 +137,7 @@ def startNode (a : Abs) : NodeRef :=
 
 /-- block-tree membership: `root` is `anchor` or descends from it -/
 def inside (a : Abs) (anchor root : Root) : Option Bool :=
-  if anchor = root then some true else
+  if anchor = root then (if a.known anchor then some true else none) else
   match a.firstSlot anchor, a.firstSlot root with
   | some sa, some sr => some (a.fcAncestorOrSelf ⟨sa, anchor⟩ a.fuel ⟨sr, root⟩)
   | _, _ => none
